@@ -116,11 +116,13 @@ class Dispatcher(object):
             raise e
         self.sent.append(d)
 
+    disconnects = 0
+
     def connect(self, ep):
         pass
 
     def disconnect(self):
-        pass
+        self.disconnects += 1
 
 
 def build():
@@ -211,7 +213,7 @@ def _seg(frame):
 DOWN_FAULTS = ("unencodable-value", "oversize-frame", "no-transport-session", "socket-write-fails", "interrupted-during-socket-write", "connection-found-dead-during-write")
 SILENT = ("connection-found-dead-during-write",)          # the caller sees no exception: the disconnect is announced by an event instead
 UP_FAULTS = ("undecryptable-frame", "undecodable-frame", "rejected-stanza", "application-callback-raises", "key-request-for-incoming-message-fails-below",
-             "incoming-frame-while-session-not-ready")
+             "incoming-frame-while-session-not-ready", "application-callback-raises-on-keepalive-pong")
 
 
 def _do_send_ok(top, disp):
@@ -233,6 +235,13 @@ def _do_send_ok(top, disp):
     except Exception:
         return False
     return SC.strict_eq(node, ent.toProtocolTreeNode())
+
+
+def _iq_layer(insts):
+    for l in insts:
+        for s_ in getattr(l, "sublayers", ()):
+            if type(s_).__name__ == "YowIqProtocolLayer":
+                return s_
 
 
 def _do_recv_ok(net, top):
@@ -292,6 +301,15 @@ def _inject_fault(ctx, kind, st, insts, disp, net, noise, top):
             finally:
                 noise._wa_noiseprotocol.ready = True
                 top.queued_while_not_ready = noise._incoming_segments_queue.qsize()
+        elif kind == "application-callback-raises-on-keepalive-pong":
+            # the keep-alive's ping is answered in time, but the application's handler raises on the pong
+            from yowsup.layers.protocol_iq.protocolentities import PingIqProtocolEntity
+            iq = _iq_layer(insts)
+            ping = PingIqProtocolEntity()
+            iq.waitPong(ping.getId())
+            iq.sendIq(ping)
+            top.fail_next = True
+            net.receive(_seg(_frame(N("iq", {"id": ping.getId(), "type": "result", "from": "s.whatsapp.net"}))))
         elif kind == "undecryptable-frame":
             net.receive(_seg(b"CORRUPT ciphertext whose tag does not verify"))
         elif kind == "undecodable-frame":
@@ -394,6 +412,19 @@ def h_fault(ctx, kind, n_ops):
                 ST.wire_manager(st, ST.ManagerStub(True))
             held = sorted(l.name for l in locks.values() if l.held)
             obs.append(("no-lock-held-after-failure (held: %s)" % held, not held))
+            if kind == "application-callback-raises-on-keepalive-pong":
+                # the ping WAS answered: the next keep-alive period must not take the connection for dead
+                from yowsup.layers.protocol_iq.protocolentities import PingIqProtocolEntity
+                iq, nd = _iq_layer(insts), disp.disconnects
+                nxt = PingIqProtocolEntity()
+                try:
+                    iq.waitPong(nxt.getId())
+                    iq.sendIq(nxt)
+                    _run_detached(st)
+                except WouldBlock as e:
+                    return obs + [("later-operation-blocks-forever (%s)" % e, False)]
+                obs.append(("the answered ping does not count as unanswered at the next keep-alive period (connection kept)", disp.disconnects == nd and bool(net.connected)))
+                net.receive(_seg(_frame(SC.N()("iq", {"id": nxt.getId(), "type": "result", "from": "s.whatsapp.net"}))))
         else:
             try:
                 ok = _do_send_ok(top, disp) if i % 2 == 0 else _do_recv_ok(net, top)
